@@ -669,7 +669,10 @@ PROPS = {
         }),
         "rule": "as C02: tasks with proof outlines (lemmas with every direction annotation, definitions incl. malformed ones, inductive lemmas incl. induction variable bound inside F and negative start) "
                 "vs the Lean model of ProofOutline::from_specification / inductive_lemma / definition and of the outline part of the problem assembly",
-        "level_text": "Full for induction and sequencing: induction_sound (the two obligations imply F for every integer >= n, for every formula incl. rebinding of the induction variable), "
+        "level_text": "Full for the model: outline_sound (an interpretation that satisfies the axioms of a direction - premises and accepted definitions - and refutes none of the emitted outline problems "
+                      "satisfies every lemma the outline makes available as an axiom; by induction along the outline over outline_sequencing), accepted_outline_lemmas_justified (every lemma of an accepted outline, plain or "
+                      "inductive, is implied by its obligations; fold invariant over ProofOutline::from_specification), inductive_lemma_justified (base and step imply the closed lemma, whatever its variable list), "
+                      "induction_sound (the two obligations imply F for every integer >= n, for every formula incl. rebinding of the induction variable), "
                       "inductiveLemma_shape, definition_accepted_implies, definition_conservative (every interpretation can be changed on the defined predicate alone so that an accepted "
                       "definition holds - so no accepted definition makes a claim about the task's predicates available), outline_sequencing (lemma k's problems use the direction's axioms and the "
                       "consequences of lemmas < k) proved; head arguments pairwise distinct since fix c8750dd; one literal-reading known finding (definition predicate may occur in an earlier lemma), harmless by definition_conservative.",
